@@ -24,8 +24,8 @@ MANIFEST = {
     'technique': 'deductive: VCs from the real AST of Volume.probability / Volume.get_free_energy with an extended-real tensor domain for '
                  'inf/NaN; z3 + cvc5 (nonlinear); native replay; random-grid stand-in',
 }
-UNITS = ['unit_probability', 'unit_free_energy', 'unit_sum_lemmas']
-BOUNDED = ['bounded_free_energy', 'bounded_purity']
+UNITS = ['unit_probability', 'unit_free_energy', 'unit_sum_lemmas', 'unit_plumbing']
+BOUNDED = ['bounded_free_energy', 'bounded_purity', 'bounded_plumbing']
 META = {
     'clauses': {'C09.prob': 'P (pointwise p = data/total, p >= 0; sum = 1 by the linearity lemma)', 'C09.F': 'P', 'C09.mono': 'P', 'C09.unvisited': 'P',
                 'C09.const': 'P (value of the installed constant)', 'C09.graph': 'P for DBL_MAX >= thresholds; node loop B'},
@@ -351,3 +351,14 @@ from verif.native.purity import make_bounded as _make_purity  # noqa: E402
 from verif.props.purity_reg import REG as _PURITY_REG  # noqa: E402
 PURITY = _PURITY_REG['C09']
 bounded_purity = _make_purity('C09', PURITY)
+
+
+# plumbing around the anchored functions: forwarding contracts of the public wrappers, no state shared between calls or objects
+from verif.props import plumbing as _plumbing  # noqa: E402
+
+
+def unit_plumbing(tier):
+    return _plumbing.unit_plumbing(PROPERTY)
+
+
+bounded_plumbing = _plumbing.make_bounded(PROPERTY)
